@@ -23,6 +23,7 @@ def check(model, R, tier):
     from sa.rules_flags import check_presence
     check_presence(model, R, 'C02')
     K.check_glin(model, R, ops, 'C02')
+    K.check_homog(model, R, 'C02', names=('addmm_backward', 'matmul_backward', 'conv1d_backward', 'conv2d_backward', 'batch_norm_backward'))
     kernels = [model.func(d) for d in sorted({d for o in ops for d, _, _ in o.bwd_calls})]
     R.analysed['backward_kernels'] = [k.qualname for k in kernels]
     K.check_dep(model, R, 'C02', kernels)
